@@ -97,9 +97,10 @@ class VLoop(asyncio.SelectorEventLoop):
         finally:
             events._set_running_loop(prev)
 
-    def run_owner(self, owner, budget: int = 100000) -> int:
+    def run_owner(self, owner, budget: int = 100000, max_handles: int | None = None) -> int:
         """Run ready handles attributed to ``owner`` (a name, or a set of names;
-        handles with no owner always qualify) until none is ready."""
+        handles with no owner always qualify) until none is ready (or at most
+        ``max_handles`` of them: a micro-step)."""
         if isinstance(owner, (set, frozenset, list, tuple)):
             owners = set(owner) | {None}
         else:
@@ -125,6 +126,8 @@ class VLoop(asyncio.SelectorEventLoop):
                 return n
             self._run_handle(picked)
             n += 1
+            if max_handles is not None and n >= max_handles:
+                return n
             if n > budget:
                 raise StepBudgetExceeded(owner)
 
